@@ -113,6 +113,7 @@ type hist struct {
 	rejected bool
 	removed  bool
 	multiSig bool
+	dead     bool   // a call into the real pool panicked where the model has no panic: the history stops there
 	lastSel  string // rendering of the previous op's Select output ("" if the previous op was not a Select)
 }
 
@@ -211,6 +212,9 @@ func (h *hist) after(e *env, term string, entry any) {
 }
 
 func (h *hist) insert(e *env, s int, n uint64, kinds []int, ante int64, extra ...sn) {
+	if h.dead {
+		return
+	}
 	tx := e.mkTx(s, n)
 	for _, x := range extra {
 		tx.pubs = append(tx.pubs, e.pubs[x.s])
@@ -227,7 +231,12 @@ func (h *hist) insert(e *env, s int, n uint64, kinds []int, ante int64, extra ..
 	if _, dup := h.pend[sn{s, n}]; dup || prio == math.MinInt64 {
 		h.premise = false
 	}
-	err := h.mp.Insert(ctx, tx)
+	err, pan := safely(func() error { return h.mp.Insert(ctx, tx) })
+	if pan != nil {
+		e.run.Violate("C19:insert-panics", fmt.Sprintf("Insert(sender %d, nonce %d) panicked: %v", s, n, pan), map[string]any{"history": h.log})
+		h.dead = true
+		return
+	}
 	if err != nil {
 		// the default configuration never rejects; the model has no such branch
 		e.run.Violate("C19:insert-rejected", "Insert returned an error: "+err.Error(), map[string]any{"history": h.log})
@@ -257,8 +266,16 @@ func (h *hist) insert(e *env, s int, n uint64, kinds []int, ante int64, extra ..
 }
 
 func (h *hist) remove(e *env, s int, n uint64) {
+	if h.dead {
+		return
+	}
 	tx := e.mkTx(s, n)
-	err := h.mp.Remove(tx)
+	err, pan := safely(func() error { return h.mp.Remove(tx) })
+	if pan != nil {
+		e.run.Violate("C19:remove-panics", fmt.Sprintf("Remove(sender %d, nonce %d) panicked: %v", s, n, pan), map[string]any{"history": h.log})
+		h.dead = true
+		return
+	}
 	_, was := h.pend[sn{s, n}]
 	if (err == nil) != was { // every history: Remove is keyed by (first signer, sequence)
 		e.run.Violate("C19:remove-outcome", fmt.Sprintf("Remove(sender %d, nonce %d) err=%v but pending=%v", s, n, err, was), map[string]any{"history": h.log})
@@ -273,6 +290,16 @@ func (h *hist) remove(e *env, s int, n uint64) {
 	}
 	h.after(e, fmt.Sprintf("C19.CRemove %d %s %s", s, emit.ZU(n), emit.Bool(err == nil)),
 		map[string]any{"op": "remove", "sender": s, "nonce": n, "ok": err == nil})
+}
+
+// runs a call into the real pool; a panic becomes a value instead of killing the run
+func safely(f func() error) (err error, panicked any) {
+	defer func() {
+		if r := recover(); r != nil {
+			panicked = r
+		}
+	}()
+	return f(), nil
 }
 
 func realSelect(mp *palomamempool.PriorityNonceMempool[int64]) (out []*testTx, panicked bool) {
@@ -293,6 +320,9 @@ func realSelect(mp *palomamempool.PriorityNonceMempool[int64]) (out []*testTx, p
 }
 
 func (h *hist) selectOp(e *env) {
+	if h.dead {
+		return
+	}
 	out, panicked := realSelect(h.mp)
 	items := make([]string, len(out))
 	ids := make([]sn, len(out))
@@ -460,7 +490,7 @@ func (e *env) genHistory(hostile bool) {
 		nops += r.Intn(30)
 	}
 	tieHeavy := r.Intn(2) == 0
-	for i := 0; i < nops; i++ {
+	for i := 0; i < nops && !h.dead; i++ {
 		x := r.Intn(100)
 		switch {
 		case x < 55: // insert
@@ -507,7 +537,9 @@ func (e *env) genHistory(hostile bool) {
 			}
 		}
 	}
-	h.selectOp(e)
+	if !h.dead {
+		h.selectOp(e)
+	}
 	kind := "structured"
 	if hostile {
 		kind = "hostile"
